@@ -17,6 +17,11 @@
 (*   Shutdown    ChitchatHandle::initiate_shutdown                         *)
 (*   Hold(e)     the user holds the state mutex while e happens, then      *)
 (*               releases it                                               *)
+(*   CmdGossip issued WITHOUT waiting for the loop (nosettle): it stays    *)
+(*               queued on the command channel and the next event -- only  *)
+(*               another command, the channel is FIFO -- finds it there;   *)
+(*               the loop must serve the queue in order (gossips, then     *)
+(*               possibly the shutdown)                                    *)
 (***************************************************************************)
 EXTENDS Integers, Sequences, TLC, Json
 
@@ -27,9 +32,10 @@ VARIABLES running,     \* the loop is alive
           hb,          \* heartbeat increments so far (beyond the initial value)
           failNext,    \* number of upcoming sends the transport will fail
           panicArmed,  \* the next send panics
-          hist         \* the script so far, with the effects each event must have
+          hist,        \* the script so far, with the effects each event must have
+          defer        \* gossip commands queued but not yet served (issued without waiting)
 
-vars == <<running, term, hb, failNext, panicArmed, hist>>
+vars == <<running, term, hb, failNext, panicArmed, hist, defer>>
 
 Plain == {"Tick", "RecvSyn", "RecvSynBad", "RecvAck", "CmdGossip", "SendFail", "RecvFatal", "SendPanic", "Shutdown"}
 Holdable == {"Tick", "RecvSyn", "CmdGossip", "Shutdown", "RecvFatal"}
@@ -44,32 +50,54 @@ SendsOf(e) == CASE e = "Tick"       -> <<"Syn">>
 
 \* the start-up round: tokio's interval fires immediately
 Init ==
-  /\ running = TRUE /\ term = "none" /\ hb = 1 /\ failNext = 0 /\ panicArmed = FALSE
-  /\ hist = <<[e |-> "Start", hold |-> FALSE, dhb |-> 1, sends |-> <<[t |-> "Syn", ok |-> TRUE]>>,
+  /\ running = TRUE /\ term = "none" /\ hb = 1 /\ failNext = 0 /\ panicArmed = FALSE /\ defer = 0
+  /\ hist = <<[e |-> "Start", hold |-> FALSE, nosettle |-> FALSE, dhb |-> 1, sends |-> <<[t |-> "Syn", ok |-> TRUE]>>,
                term |-> "none", running |-> TRUE]>>
 
-Event(e, hold) ==
-  LET wants == IF running THEN SendsOf(e) ELSE <<>>
-      panics == running /\ panicArmed /\ wants # <<>>
-      sent == IF panics THEN <<>> ELSE [i \in 1..Len(wants) |-> [t |-> wants[i], ok |-> i > failNext]]
-      dhb == IF running THEN HbOf(e) ELSE 0
-      run2 == running /\ ~panics /\ e \notin {"RecvFatal", "Shutdown"}
-      term2 == IF ~running THEN term
+\* effect of one event on the loop's control state s = [running, term, failNext, panicArmed]
+Eff(s, e) ==
+  LET wants == IF s.running THEN SendsOf(e) ELSE <<>>
+      panics == s.running /\ s.panicArmed /\ wants # <<>>
+      sent == IF panics THEN <<>> ELSE [i \in 1..Len(wants) |-> [t |-> wants[i], ok |-> i > s.failNext]]
+      run2 == s.running /\ ~panics /\ e \notin {"RecvFatal", "Shutdown"}
+      term2 == IF ~s.running THEN s.term
                ELSE IF panics THEN "panic"
                ELSE IF e = "RecvFatal" THEN "err"
-               ELSE IF e = "Shutdown" THEN "ok" ELSE term
-  IN /\ running' = run2
-     /\ term' = term2
-     /\ hb' = hb + dhb
-     /\ failNext' = IF e = "SendFail" THEN failNext + 1
-                    ELSE IF Len(sent) > failNext THEN 0 ELSE failNext - Len(sent)
-     /\ panicArmed' = IF e = "SendPanic" THEN TRUE ELSE IF panics THEN FALSE ELSE panicArmed
-     /\ hist' = Append(hist, [e |-> e, hold |-> hold, dhb |-> dhb, sends |-> sent, term |-> term2, running |-> run2])
+               ELSE IF e = "Shutdown" THEN "ok" ELSE s.term
+  IN [s |-> [running |-> run2, term |-> term2,
+             failNext |-> IF e = "SendFail" THEN s.failNext + 1
+                          ELSE IF Len(sent) > s.failNext THEN 0 ELSE s.failNext - Len(sent),
+             panicArmed |-> IF e = "SendPanic" THEN TRUE ELSE IF panics THEN FALSE ELSE s.panicArmed],
+      dhb |-> IF s.running THEN HbOf(e) ELSE 0, sent |-> sent]
+\* ... of k queued gossip commands followed by e
+RECURSIVE EffQ(_, _, _)
+EffQ(s, k, e) ==
+  IF k = 0 THEN Eff(s, e)
+  ELSE LET r1 == Eff(s, "CmdGossip")  r2 == EffQ(r1.s, k - 1, e)
+       IN [s |-> r2.s, dhb |-> r1.dhb + r2.dhb, sent |-> r1.sent \o r2.sent]
+
+Cur == [running |-> running, term |-> term, failNext |-> failNext, panicArmed |-> panicArmed]
+Event(e, hold) ==
+  /\ defer > 0 => (~hold /\ e \in {"CmdGossip", "Shutdown"})
+  /\ LET r == EffQ(Cur, defer, e) IN
+     /\ running' = r.s.running /\ term' = r.s.term /\ failNext' = r.s.failNext /\ panicArmed' = r.s.panicArmed
+     /\ hb' = hb + r.dhb
+     /\ defer' = 0
+     /\ hist' = Append(hist, [e |-> e, hold |-> hold, nosettle |-> FALSE, dhb |-> r.dhb, sends |-> r.sent,
+                              term |-> r.s.term, running |-> r.s.running])
+\* a gossip command issued without waiting: nothing observable yet
+GossipNoSettle ==
+  /\ defer' = defer + 1
+  /\ UNCHANGED <<running, term, hb, failNext, panicArmed>>
+  /\ hist' = Append(hist, [e |-> "CmdGossip", hold |-> FALSE, nosettle |-> TRUE, dhb |-> 0, sends |-> <<>>,
+                           term |-> term, running |-> running])
 
 Next == \/ \E e \in Plain : Event(e, FALSE)
         \/ \E e \in Holdable : Event(e, TRUE)
+        \/ GossipNoSettle
 Spec == Init /\ [][Next]_vars
-Bound == Len(hist) <= MaxLen + 1
+\* (a script does not end with a command still queued)
+Bound == Len(hist) + (IF defer > 0 THEN 1 ELSE 0) <= MaxLen + 1
 
 -------------------------------------------------------------------------------
 \* C19 as properties of every script
@@ -78,6 +106,12 @@ Last == hist[Len(hist)]
 C19_SendErrorsHarmless ==
   [][ (Len(hist') > Len(hist) /\ running /\ hist'[Len(hist')].e \in {"Tick", "RecvSyn", "RecvSynBad", "CmdGossip", "SendFail"}
        /\ ~panicArmed) => (running' /\ term' = term) ]_vars
+\* a queued gossip command never swallows what is queued behind it
+C19_QueueInOrder ==
+  [][ (Len(hist') > Len(hist) /\ defer > 0 /\ running /\ ~panicArmed /\ ~hist'[Len(hist')].nosettle) =>
+        LET s == hist'[Len(hist')] IN
+        /\ Len(s.sends) >= defer /\ \A i \in 1..defer : s.sends[i].t = "Syn"
+        /\ s.e = "Shutdown" => (term' = "ok" /\ ~running') ]_vars
 \* a live loop keeps heartbeating and answering
 C19_KeepsWorking ==
   [][ (Len(hist') > Len(hist) /\ running /\ ~panicArmed) =>
